@@ -1969,11 +1969,20 @@ func (r *Raft) installSnapshot(rpc RPC, req *InstallSnapshotRequest) {
 	r.setLatestConfiguration(reqConfiguration, reqConfigurationIndex)
 	r.setCommittedConfiguration(reqConfiguration, reqConfigurationIndex)
 
-	// Clear old logs if r.logs is a MonotonicLogStore. Otherwise compact the
-	// logs. In both cases, log any errors and continue.
-	if mlogs, ok := r.logs.(MonotonicLogStore); ok && mlogs.IsMonotonic() {
+	// Clear old logs if r.logs is a MonotonicLogStore, unless the log holds the
+	// snapshot's last entry: then dropping a prefix cannot leave a gap, and the
+	// entries after the snapshot may already have been acknowledged to the
+	// leader. Otherwise compact the logs. In both cases, log any errors and
+	// continue.
+	mlogs, ok := r.logs.(MonotonicLogStore)
+	var snapEntry Log
+	if ok && mlogs.IsMonotonic() &&
+		(r.logs.GetLog(req.LastLogIndex, &snapEntry) != nil || snapEntry.Term != req.LastLogTerm) {
 		if err := r.removeOldLogs(); err != nil {
 			r.logger.Error("failed to reset logs", "error", err)
+		} else {
+			// Nothing is left in the log store: the snapshot is our last entry.
+			r.setLastLog(req.LastLogIndex, req.LastLogTerm)
 		}
 	} else if err := r.compactLogs(req.LastLogIndex); err != nil {
 		r.logger.Error("failed to compact logs", "error", err)
